@@ -18,6 +18,8 @@ func init() {
 				Run: ruleErrPropagate},
 			{ID: "C08.commit-after-success", Floor: 12, Clause: "in every Next/Peek of a stream wrapper a store to the receiver's state is dominated by a tested outcome (nil or End) of a fallible call, or is followed by no fallible call on any path (so a failed wait leaves the state a retry needs untouched); the only store allowed before the test is the simultaneous assignment of the failing call's own result",
 				Run: func(c *Ctx, r *R) { ruleCommitAfterSuccess(c, r, "C08") }},
+			{ID: "C08.first-error-wins", Floor: 2, Clause: "stream.Merge (same rule as C12.who-may-cancel): the shared context is cancelled only by the merged stream's Close and by the worker that has already won the first-error race; a cancel before the race lets a sibling that wakes with context.Canceled report that instead of the real error",
+				Run: func(c *Ctx, r *R) { ruleMergeWhoMayCancel(c, r) }},
 			{ID: "C08.no-discarded-pull", Floor: 22, Clause: "in every Next/Peek of stream and parallel wrappers an item taken from the source, the reorder heap or a data channel is used on every path on which it was obtained: a Next that fails (e.g. on its context) after taking an item would lose it",
 				Run: func(c *Ctx, r *R) { ruleNoDiscardedPull(c, r, "stream", "parallel") }},
 			{ID: "C08.batch-error-delivered", Floor: 2, Clause: "both places where batchStream.Next sees batchC closed return the source's error if there is one and End only otherwise",
@@ -351,6 +353,45 @@ func ruleCommitAfterSuccess(c *Ctx, r *R, prefix string) {
 				if len(fall) == 0 {
 					continue
 				}
+				// typestate: 0 = no fallible call pending, 1 = a fallible call returned and its outcome is untested on this
+				// path, 2 = it failed (err != nil taken, not End)
+				errOf := map[ssa.Value]bool{}
+				for _, fc := range fall {
+					if _, e := fallibleCall(fc); e != nil {
+						errOf[e] = true
+					}
+				}
+				pend := &PF{N: 3}
+				pend.Instr = func(f *ssa.Function, in ssa.Instruction, q int) (StateSet, bool) {
+					if fc, _ := fallibleCall(in); fc != nil {
+						return ss(1), true
+					}
+					return 0, false
+				}
+				pend.Edge = func(f *ssa.Function, g guard, q int) (StateSet, bool) {
+					cf, ok := g.asCmp()
+					if !ok {
+						return 0, false
+					}
+					x, y := cf.x, cf.y
+					if errOf[y] {
+						x, y = y, x
+					}
+					if !errOf[x] || q == 0 {
+						return 0, false
+					}
+					isEnd := strings.HasSuffix(path(y), "End")
+					switch {
+					case cf.op == token.EQL && (isNilConst(y) || isEnd):
+						return ss(0), true
+					case cf.op == token.NEQ && isNilConst(y):
+						return ss(2), true
+					}
+					return 0, false
+				}
+				pendingAt := map[ssa.Instruction]StateSet{}
+				pend.Visit = func(f *ssa.Function, in ssa.Instruction, before StateSet) { pendingAt[in] |= before }
+				pend.Exits(fn, ss(0))
 				k := 0
 				instrs(fn, func(b *ssa.BasicBlock, i int, in ssa.Instruction) {
 					st, ok := in.(*ssa.Store)
@@ -363,15 +404,6 @@ func ruleCommitAfterSuccess(c *Ctx, r *R, prefix string) {
 					}
 					k++
 					key := rel + "." + tn + "." + mn + "|store:" + fld + "#" + itoa(k)
-					// (1) simultaneous assignment of a fallible call's own first result
-					if ex, ok := st.Val.(*ssa.Extract); ok && ex.Index == 0 {
-						if call, ok := ex.Tuple.(*ssa.Call); ok {
-							if fc, _ := fallibleCall(call); fc != nil {
-								r.discharged(key, st.Pos(), "simultaneous assignment of the call's own result (overwritten before it is read again)")
-								return
-							}
-						}
-					}
 					// (0) a store that happens only on the FAILURE edge of a fallible call changes state exactly when the
 					// caller is told to retry
 					for _, g := range guardsOf(b) {
@@ -432,6 +464,80 @@ func ruleCommitAfterSuccess(c *Ctx, r *R, prefix string) {
 						}
 						if fc.Block() == b && reaches(b, b) {
 							follows = true
+						}
+					}
+					// (1) simultaneous assignment of a fallible call's own first result (`s.curr, err = s.inner.Next(ctx)`): the field is
+					// overwritten before the outcome is known, so what it held must have been dead - a dominating test says the
+					// receiver holds nothing (`!s.has`, `s.curr == nil`, `len(s.buffer) == 0`) - or be put back on the failure path
+					if ex, ok := st.Val.(*ssa.Extract); ok && ex.Index == 0 {
+						if call, ok := ex.Tuple.(*ssa.Call); ok {
+							if fc, e := fallibleCall(call); fc != nil {
+								dead := false
+								for _, g := range guardsOf(b) {
+									if v, val := g.boolVal(); !val {
+										if ld, ok := v.(*ssa.UnOp); ok && ld.Op == token.MUL {
+											if _, base2, ok := rootField(ld.X); ok && base2 == ssa.Value(recv) {
+												dead = true
+											}
+										}
+									}
+									if cf, ok := g.asCmp(); ok {
+										if ld, ok := cf.x.(*ssa.UnOp); ok && ld.Op == token.MUL && cf.op == token.EQL && isNilConst(cf.y) {
+											if f2, base2, ok := rootField(ld.X); ok && base2 == ssa.Value(recv) && f2 == fld {
+												dead = true
+											}
+										}
+										if lc, ok := cf.x.(*ssa.Call); ok {
+											if bi, ok := lc.Call.Value.(*ssa.Builtin); ok && bi.Name() == "len" {
+												if ld, ok := lc.Call.Args[0].(*ssa.UnOp); ok && ld.Op == token.MUL {
+													if f2, base2, ok := rootField(ld.X); ok && base2 == ssa.Value(recv) && f2 == fld {
+														if (cf.op == token.LEQ && isConstInt(cf.y, 0)) || (cf.op == token.EQL && isConstInt(cf.y, 0)) || (cf.op == token.LSS && isConstInt(cf.y, 1)) {
+															dead = true
+														}
+													}
+												}
+											}
+										}
+									}
+								}
+								restored := false
+								if !dead && e != nil {
+									instrs(fn, func(b2 *ssa.BasicBlock, _ int, in2 ssa.Instruction) {
+										st2, ok := in2.(*ssa.Store)
+										if !ok || st2 == st {
+											return
+										}
+										if f2, base2, ok := rootField(st2.Addr); !ok || base2 != ssa.Value(recv) || f2 != fld {
+											return
+										}
+										for _, g := range guardsOf(b2) {
+											if cf, ok := g.asCmp(); ok && cf.x == e && cf.op == token.NEQ && isNilConst(cf.y) {
+												restored = true
+											}
+										}
+									})
+								}
+								if dead || restored {
+									r.discharged(key, st.Pos(), "simultaneous assignment of the call's own result over a value that is dead (or put back on failure)")
+								} else {
+									r.violated(key, st.Pos(), "the receiver's "+fld+" is overwritten with the result of "+calleeName(&fc.Call)+" before the outcome is known, nothing says the old value was dead, and the failure path does not put it back: a failed pull destroys state a retry needs")
+								}
+								return
+							}
+						}
+					}
+					// (2') reached with the outcome of an earlier fallible call untested (or known bad) on some path: the store
+					// also runs when that call failed - `s.has = err != End` latches a phantom item on a failed pull
+					if ps := pendingAt[in]; ps.has(1) || ps.has(2) {
+						recording := false
+						for e := range errOf {
+							if st.Val == e {
+								recording = true // storing the error itself (a sticky failure) is the point of such a store
+							}
+						}
+						if !recording {
+							r.violated(key, st.Pos(), "the receiver's "+fld+" is changed on a path on which a pull that just returned has not been tested for success: the store also happens when the call failed, so a failed pull leaves a mark (a phantom item, a lost position) that a retry then sees")
+							return
 						}
 					}
 					if !follows {
